@@ -201,7 +201,7 @@ class C05:
         self.XSH, self.ex, self.ctx = make_session([self.sb], env={"PWD": self.work, "VERIF_EXITN_LOG": self.dump, "THREAD_SUBPROCS": True})
         self.R = Recorder()
         for code in set(CODES):
-            self.XSH.aliases[f"x{code}"] = self.R.alias(f"x{code}", rc=code)
+            self.XSH.aliases[f"x{code}"] = self.R.alias(f"x{code}", rc=code, out=f"o{code}\n")  # a failing command may well print something
 
     def execute(self, src, flags):
         from vlib.session import settle
@@ -353,6 +353,18 @@ class C05:
             rec.count("value_form_chains_run_not_judged")
             if got[0] not in ("noraise", "CalledProcessError", "SyntaxError") and "paren-group" not in feats:
                 rec.violation(f"UNEXPECTED-EXCEPTION-{got[0]}/value-form-chain", case, detail)
+                return
+            # which operands run follows Python's value semantics here - but whatever ran, the statement still raises iff the
+            # last command that actually ran failed (judged on the observed log, for plain chains only)
+            if got[0] in ("noraise", "CalledProcessError") and seen and not flags["CMD"] and not any(l.deco for l in lv) and "paren-group" not in feats and forms <= {"bare", "![]", "$()", "$[]"}:
+                last = by_id.get(seen[-1])
+                if last is not None:
+                    rec.count("value_form_chains_judged_on_the_observed_log")
+                    should = bool(flags["RAISE"]) and last.rc != 0
+                    if should != (got[0] == "CalledProcessError"):
+                        rec.violation("VALUE-FORM-CHAIN/" + ("did-not-raise-although-the-last-command-that-ran-failed" if should else "raised-although-the-last-command-that-ran-succeeded") + "/last=" + last.form, case, detail)
+                    elif should and got[1] != last.rc:
+                        rec.violation("VALUE-FORM-CHAIN/wrong-returncode-in-exception/last=" + last.form, case, detail)
             return
         if any(l.form == "!()" and l.deco == "error_raise" for l in lv):
             rec.count("error_raise_inside_captured_object_not_judged")  # the two documented rules conflict
